@@ -87,6 +87,7 @@ def main():
     ap.add_argument("--src")
     ap.add_argument("--kept", action="store_true")
     ap.add_argument("--only")
+    ap.add_argument("--only-re", help="regular expression on the kept seed's name")
     ap.add_argument("--tier", default="quick")
     ap.add_argument("--keep", action="store_true")
     ap.add_argument("--all-checks", action="store_true")
@@ -99,6 +100,10 @@ def main():
     if a.kept:
         base = os.path.join(ROOT, "seeded")
         for d in sorted(os.listdir(base)):
+            if a.only_re:
+                import re
+                if not re.search(a.only_re, d):
+                    continue
             if os.path.isdir(os.path.join(base, d)) and (not a.only or a.only in d):
                 pid = d.split("-")[0]
                 try:
@@ -162,14 +167,16 @@ def main():
                 meta = json.load(open(os.path.join(cdir, "meta.json")))
             except Exception:
                 pass
+            # results of checks that were not re-run this time are kept
+            old_res = {c: v for c, v in (meta.get("result") or {}).items() if c not in r["checks"]}
             meta.update({
                 "breaks_property": pid,
                 "origin": "written by an independent sub-agent given only the property text and a scratch worktree",
                 "confirmed": {"applies_to": "/repo HEAD at the time", "own_tests_pass_with_change": r["tests_pass"],
                               "demo_exit_with_change": r["demo_on_patched"], "demo_exit_without": r["demo_on_clean"]},
                 "what_was_run": [f"./check {c} --tier {a.tier}  (VALIDA_SRC=<scratch copy with the patch>)" for c in r["checks"]],
-                "result": {c: {"exit": v["exit"], "first_keys": v["keys"][:3], "wall_s": v["s"]} for c, v in r["checks"].items()},
-                "caught_by": r["caught_by"],
+                "result": dict(old_res, **{c: {"exit": v["exit"], "first_keys": v["keys"][:3], "wall_s": v["s"]} for c, v in r["checks"].items()}),
+                "caught_by": sorted(set(r["caught_by"]) | {c for c, v in old_res.items() if v.get("exit") == 1}),
             })
             with open(os.path.join(dst, "meta.json"), "w") as fh:
                 json.dump(meta, fh, indent=1)
